@@ -148,7 +148,7 @@ rc::Gen<lcase_t> gen_lcase()
                            : dk < 18 ? dir_zero
                                      : dir_slightly_up;
             c.w          = *gen::vec(n, 1.0);
-            c.B          = *gen::vec(3 * n, 1.0);
+            c.B          = *rc::gen::noShrink(gen::vec(3 * n, 1.0));
             c.tangent    = *gen::logu(1e-2, 1e3);
             c.delta      = *gen::logu(1e-6, 1.0);
             c.dscale     = *gen::chance(30) ? 1.0 : *gen::logu(1e-3, 1e3);
